@@ -571,6 +571,21 @@ class Interp:
             return SymSeq(mk("int", smt.slen(it.t)), lambda c, i: mk("int", smt.at(it.t, z(i))), "bytes")
         if isinstance(it, Ref) and isinstance(c.cell(it).data, SymSeq):
             return c.cell(it).data
+        if isinstance(it, Ref) and isinstance(c.cell(it).data, list):
+            it = tuple(c.cell(it).data)
+        if isinstance(it, (tuple, list)):
+            items = list(it)
+
+            def elem(c_, i, items=items):
+                ok, k = concrete(i)
+                if not ok:
+                    k = len(items) - 1 if len(items) else 0
+                    for j in range(len(items)):
+                        if c_.branch(z(i, "int") == j):
+                            k = j
+                            break
+                return items[k]
+            return SymSeq(len(items), elem, "concrete")
         raise Undecided(f"for-loop with invariant over {tag_of(it)} at line {node.lineno}")
 
     def iterate(self, c, v, node):
